@@ -94,7 +94,7 @@ var c06Owner = tqOwner{
 var c15Owner = tqOwner{
 	name:   "C15",
 	events: map[string]bool{"retry": true, "retry.delay": true, "xfer.start": true, "xfer.end.ok": true, "xfer.end.retriable": true,
-		"xfer.end.fatal": true, "xfer.end.later": true, "srv.obj": true, "srv.later": true, "obj.xfer": true, "col.sleep": true},
+		"xfer.end.fatal": true, "xfer.end.unproc": true, "xfer.end.later": true, "srv.obj": true, "srv.later": true, "obj.xfer": true, "col.sleep": true},
 	direct: map[string]bool{},
 }
 
